@@ -1,5 +1,5 @@
 ENGINES = [
-    {"name": "csym", "path": "vt/csym.py", "serves_properties": ["C01", "C02", "C03", "C18"],
+    {"name": "csym", "path": "vt/csym.py", "serves_properties": ["C01", "C02", "C03", "C13", "C18"],
      "kind_free_text": "symbolic interpreter of traits/ctraits.c over clang's JSON AST (regenerated from the current source on every run), "
                        "CPython API contracts in vt/capi.py, shared path condition with symx; memory-safety assertions on every path"},
     {"name": "symx", "path": "vt/symx.py", "serves_properties": ["C01", "C03", "C04", "C05", "C06", "C07"],
@@ -99,4 +99,17 @@ CHECKS["C02"] = dict(
     design_ref="DESIGN.md section 4 C02", technique="symbolic interpretation of the C source (clang AST) plus native symbolic execution of the Python wrappers, z3; counterexamples replayed",
     note="Comparison mode is concrete per obligation (the Python filters read it from the real CTrait). Assumes consistent ==/!=, int payloads "
          "outside the small-int cache, |int|<=2**53 in int/float comparisons. Outside: dispatch='ui'/'new', handlers mutating notifier lists.")
+CHECKS["C13"] = dict(
+    engine="symx+csym",
+    text="(a) Symbolic execution of the real HasTraits.__prefix_trait__ on a symbolic attribute name (z3 String, unbounded length over "
+         "[A-Za-z0-9_]) for 7 fixture hierarchies (nested/overlapping wildcards, subclass adding longer and shorter prefixes, strict and "
+         "private classes, a delegate): z3 decides per path that the returned trait is the template of the LONGEST table prefix that is a "
+         "prefix of the name, dunder names as documented, table ordered longest-first. (b) Bounded histories (k=2 quick, 3 thorough) of "
+         "read/write/delete/add_trait/remove_trait through has_traits_getattro/setattro, get_prefix_trait, get_trait and the "
+         "readonly/constant/disallow/event/python handlers interpreted from ctraits.c's AST on real objects, incl. a trait_added listener "
+         "that adds an instance trait during resolution; oracle: independent statement of the governing rule and of each policy.",
+    design_ref="DESIGN.md section 4 C13", technique="symbolic execution with z3 strings (Python) and symbolic interpretation of the C source (clang AST); counterexamples replayed",
+    note="Part (b) has concrete names: the solver contributes path feasibility only there (exhaustive bounded enumeration, labelled so in the "
+         "evidence). Assumes names without statically named _<name>_changed handlers. Fixture classes are created per run because resolved "
+         "wildcard names are cached per class.")
 NOT_APPLICABLE = {p: NOT_BUILT for p in ["C%02d" % i for i in range(1, 21)]}
